@@ -34,7 +34,8 @@ CLAIMED = {
         'DESIGN.md 4/C01'),
     'C03': (
         'TLC model checking of Workbook.tla (history-free meaning Sem vs Calc: '
-        'every schedule of firings of every generated workbook) + replay of '
+        'every schedule of firings of every generated workbook) and of '
+        'Assemble.tla (wiring of ranges) + replay of '
         'each workbook through both load paths, orders, spellings and hash '
         'seeds + TLC trace validation (CalcTrace.tla) of the recorded '
         'calculation',
@@ -50,7 +51,15 @@ CLAIMED = {
         'six (thorough) PYTHONHASHSEED values in separate processes; every '
         'cell must equal Sem. The sequence of values the cell nodes receive '
         '(hook H4) is validated step by step by CalcTrace.tla: a formula '
-        'fires only after its inputs, with exactly its formula\'s value.',
+        'fires only after its inputs, with exactly its formula\'s value. '
+        'Assemble.tla is the range-wiring machine of ExcelModel.assemble() / '
+        'RangesAssembler (push, sort by missing with nondeterministic ties, add) '
+        'over every layout of a 2 x 3 sheet: TLC checks WiringExact, '
+        'SelfOnlyWhenMany, PlaceholdersExist, InverseExact and emits every final '
+        'state; the RangesAssembler objects of real models (1 500 layouts quick, '
+        'all 21 224 thorough) are projected onto the specification\'s variables '
+        'and must equal a final state TLC reached for that layout, and the '
+        'calculated rectangle is read position by position.',
         'Trusted: TLC; the generator\'s geometry resolution (ranges as id '
         'matrices) and spelling; the small function set of Workbook.tla '
         '(SUM, COUNT, MAX, MIN, IF, IFERROR, ISERROR). Whole-column references '
@@ -175,7 +184,10 @@ CLAIMED = {
         'either - the recorded C07 finding - agreement with calculate() is what '
         'is required; the recorded finding is limited to blank inputs without '
         'a node of their own). Directed workbooks with two overlapping ranges '
-        'sharing one blank cell. Random single formulas with references: '
+        'sharing one blank cell, and with a fully populated range beside the '
+        'inputs: after the argument tuples the model is calculated with every '
+        'other constant supplied and the function, called again with its first '
+        'arguments, must answer as it did the first time. Random single formulas with references: '
         'compile()(*args in func.inputs order), arguments including pairs of '
         'different error values, must equal the formula with the arguments '
         'written in as literals.',
@@ -262,7 +274,9 @@ CLAIMED = {
         'an integer of the allowed set, #NUM! when no integer lies between the '
         'bounds, not always the same value. NOW / TODAY under a clock that '
         'advances at every reading, also across midnight: the value lies '
-        'between the first and last reading of its own evaluation. The '
+        'between the first and last reading of its own evaluation; one '
+        'function / model is also evaluated again and again while the clock '
+        'moves on (an hour across midnight, 17 h, 23 h 59, days, back). The '
         'recorded vol events (function, compiling flag) must show '
         'no real evaluation while obtaining and exactly one per site per use.',
         'Trusted: TLC; the clock patch (module attribute of '
@@ -310,7 +324,8 @@ CLAIMED = {
         'with from_ranges(*outs).finish(): the outputs must equal Sem(W) and '
         'the fully loaded model; complete() and finish() applied again must '
         'leave nodes, edges and results unchanged; the cells the run '
-        'registered (hook H7) must include Needs(W, outs) (CompleteTrace). One '
+        'registered (hook H7) must include Needs(W, outs) (CompleteTrace), '
+        'also at the return of from_ranges itself, before finish(). One '
         'workbook in four has the same sheet title in two books (all formula '
         'cells requested), one in four sheet titles with asymmetric case '
         'mappings (Stra\u00dfe, \u00b5g); every other workbook carries stale cached '
@@ -360,7 +375,9 @@ CLAIMED = {
         'JSON round trip), calculations interleaved on model and copy with '
         'inputs that are ==-equal values of different types (1 / TRUE / "1"); '
         'every result must equal the same (model, inputs) computed in a '
-        'process of its own that has evaluated nothing else.',
+        'process of its own that has evaluated nothing else. 60 (quick) cyclic '
+        'workbooks finished with circular=True are deep-copied and dilled and '
+        'calculated side by side with the original (marks included).',
         'Trusted: TLC; generator; dill and copy from the standard environment; '
         'for the isolated references the library itself in a pristine process '
         '(an oracle for independence, not for values).',
